@@ -90,6 +90,16 @@ func main() {
 			}
 			fmt.Println(prop, len(specs), "functions")
 		}
+	case "gen-flow":
+		for _, prop := range os.Args[2:] {
+			c := rules.NewCtx(prop, "gen")
+			specs, reads := rules.FlowSpecs(c, prop)
+			if err := rules.GenFlow(c, prop, specs, reads); err != nil {
+				fmt.Println(prop, err)
+				os.Exit(1)
+			}
+			fmt.Println(prop, len(specs), "flow specs", len(reads), "read sets")
+		}
 	case "check":
 		tier := "quick"
 		if len(os.Args) > 3 {
